@@ -18,8 +18,9 @@ static std::vector<Tmpl> templates() {
     {"aa@h.dom (Alice) bb@i.dom", {{"aa", "h.dom"}, {"bb", "i.dom"}}},   // the comma is missing and a comment sits in the gap
   };
 }
+static std::string g_defaulthost = "dhost";   // option dplus=1: "dhost+" (a default host that is itself completed by the plus domain)
 static std::string rewrite(const Box &b) {
-  std::string h = b.host; const std::string dh = "dhost", dd = "ddom.example", pd = "pdom.example";
+  std::string h = b.host; const std::string dh = g_defaulthost, dd = "ddom.example", pd = "pdom.example";
   if (h.empty()) h = dh;
   if (!h.empty() && h.back() == '+') h = h.substr(0, h.size() - 1) + "." + pd;
   else if (h.find('.') == std::string::npos && h[0] != '[') h += "." + dd;
@@ -68,7 +69,7 @@ static std::vector<Case> make_cases(const Config &cfg) {
 
 struct C17 : Scenario {
   const Config &cfg; std::vector<Case> cases; const Case *c = nullptr; int round = 0; std::string qmsg, qenv; int q_runs = 0; int phase = 0; std::string first_msg; std::vector<std::string> env1;
-  C17(const Config &cf) : cfg(cf) { cases = make_cases(cf); }
+  C17(const Config &cf) : cfg(cf) { if (cf.geti("dplus", 0)) g_defaulthost = "dhost+"; cases = make_cases(cf); }
   void start(World &w, const std::vector<std::string> &args, const std::string &msg) {
     std::map<int, int> fds; fds[0] = QmailEnv::preloaded_pipe(w, msg); fds[1] = QmailEnv::sink(w); fds[2] = QmailEnv::sink(w);
     std::vector<std::string> av = {"qmail-inject"}; for (auto &a : args) av.push_back(a);
@@ -76,7 +77,7 @@ struct C17 : Scenario {
   }
   void setup(World &w) override {
     QmailEnv::build(w, cfg); Kernel &k = w.k;
-    k.put_file("/var/qmail/control/defaulthost", "dhost\n"); k.put_file("/var/qmail/control/defaultdomain", "ddom.example\n"); k.put_file("/var/qmail/control/plusdomain", "pdom.example\n"); k.put_file("/var/qmail/control/idhost", "id.example\n");
+    k.put_file("/var/qmail/control/defaulthost", g_defaulthost + "\n"); k.put_file("/var/qmail/control/defaultdomain", "ddom.example\n"); k.put_file("/var/qmail/control/plusdomain", "pdom.example\n"); k.put_file("/var/qmail/control/idhost", "id.example\n");
     w.exectab["/var/qmail/bin/qmail-queue"] = "@queue";
     int hi = w.ex->choose_n((int) ((cases.size() + 239) / 240), BK_FREE), lo = w.ex->choose_n(std::min<int>(240, (int) cases.size()), BK_FREE);
     c = &cases[std::min<size_t>((size_t) hi * 240 + lo, cases.size() - 1)];
